@@ -32,6 +32,9 @@ RULE = (
 )
 
 
+FAULT_KINDS = [InjectedFault, StopIteration, AttributeError, AssertionError, KeyError, IndexError, TypeError, ValueError]
+
+
 class Armed:
     """Callback wrapper whose identity never changes; raises at its k-th invocation when armed."""
 
@@ -39,10 +42,12 @@ class Armed:
         self.fn = fn
         self.calls = 0
         self.fault_at = None
+        self.kind = InjectedFault
 
-    def arm(self, k):
+    def arm(self, k, kind=InjectedFault):
         self.calls = 0
         self.fault_at = k
+        self.kind = kind
 
     def disarm(self):
         self.calls = 0
@@ -51,7 +56,7 @@ class Armed:
     def __call__(self, *a, **kw):
         self.calls += 1
         if self.fault_at is not None and self.calls == self.fault_at:
-            raise InjectedFault(f"fault at invocation {self.calls}")
+            raise self.kind(f"fault at invocation {self.calls}")
         return self.fn(*a, **kw)
 
 
@@ -221,7 +226,7 @@ class WriteSpy:
 def floors(ctx):
     q = ctx.tier == "quick"
     f = {"evaluations": 5000 if q else 50000, "faults_injected": 3000 if q else 30000, "faults_propagated": 1000 if q else 10000,
-         "fault_free_runs": 300}
+         "fault_free_runs": 300, "faults_of_library_catchable_types": 3000}
     for ep, cbs in (("neighbors", ["filterfunc"]), ("find_links", ["filterfunc"]), ("bft", ["ff_via", "ff_result"]),
                     ("ibft", ["ff_via", "ff_result"]), ("dft_recursive", ["ff_via", "ff_result"]),
                     ("idft_recursive", ["ff_via", "ff_result"]), ("dft_iterative", ["ff_via", "ff_result"]),
@@ -232,6 +237,17 @@ def floors(ctx):
             f[f"all_k_enumerated:{ep}:{cb}"] = 3
             f[f"propagated:{ep}:{cb}"] = 1
     return f
+
+
+def cool(g):
+    """
+    Empty every vertex's neighbor cache through public calls that leave the graph exactly as it was (attach and
+    detach a scratch self-loop).  Without this, with caching on, the callbacks of a cached entry point would
+    never be invoked again after the fault-free run and no fault could fire.
+    """
+    for v in g.verts + ([g.uni] if g.uni is not None else []):
+        e = DirectedEdge(v, v)
+        v.remove_from_link(e)
 
 
 def run_graph(ctx, spec, cache, only=None):
@@ -265,30 +281,39 @@ def run_graph(ctx, spec, cache, only=None):
             counts = {k: a.calls for k, a in cbs.items()}
             for cbname, armed in cbs.items():
                 K = counts[cbname]
-                for k in range(1, K + 1):
+                # every k with the harness' own exception type; first / middle / last k with exception types that a
+                # library is tempted to catch or to read as control flow (StopIteration, AttributeError, ...)
+                plan = [(k, InjectedFault) for k in range(1, K + 1)]
+                for kind in FAULT_KINDS[1:]:
+                    plan += [(k, kind) for k in sorted({1, (K + 1) // 2, K}) if k >= 1]
+                for k, kind in plan:
                     for a in cbs.values():
                         a.disarm()
-                    armed.arm(k)
+                    if cache:
+                        cool(g)
+                    armed.arm(k, kind)
                     out = oracles.outcome(call, cbs)
                     s2 = deep_snapshot(g)
                     ctx.evaluated()
                     ctx.count("faults_injected")
                     propagated = out[0] == "exc" and out[1] is InjectedFault
+                    if kind is not InjectedFault:
+                        ctx.count("faults_of_library_catchable_types")
                     if propagated:
                         ctx.count("faults_propagated")
                         ctx.count(f"propagated:{ep}:{cbname}")
                         ctx.nontrivial((shape, ep, cbname, k, cache))
                     if s2 != s0:
                         ctx.violation(f"{ep}:{cbname}:fault_left_graph_changed",
-                                      f"{ep} (caching={cache}) with {cbname} raising at invocation {k}/{K}: {snap_diff(s0, s2)}; spec={spec}",
-                                      dict(case, cb=cbname, k=k))
+                                      f"{ep} (caching={cache}) with {cbname} raising {kind.__name__} at invocation {k}/{K}: "
+                                      f"{snap_diff(s0, s2)}; spec={spec}", dict(case, cb=cbname, k=k))
                         break
                     for a in cbs.values():
                         a.disarm()
                     again = oracles.outcome(call, cbs)
                     if again != base:
                         ctx.violation(f"{ep}:{cbname}:answer_after_fault_differs" + (":caching_on" if cache else ""),
-                                      f"{ep} (caching={cache}): after {cbname} raised at invocation {k}/{K}, repeating the call "
+                                      f"{ep} (caching={cache}): after {cbname} raised {kind.__name__} at invocation {k}/{K}, repeating the call "
                                       f"with the well-behaved callback gives {again}, fault-free answer is {base}; spec={spec}",
                                       dict(case, cb=cbname, k=k))
                         break
@@ -313,7 +338,7 @@ def run(ctx):
         if not spec.get("uni"):
             spec["uni"] = list(range(len(spec["verts"])))
         specs.append(spec)
-    n_rand = 500 if quick else 1200
+    n_rand = 170 if quick else 1200
     n = 0
     for i in range(len(specs) + n_rand):
         if i < len(specs):
